@@ -18,6 +18,7 @@ encoding (`-` = empty string); a list of strings is printed `[h,h,...]`.
   compld <hexd> <hexrd> <hex> <a> <e|N>     complement_int_list(text, a, e, d, rd)
                                (d, rd: one-character strings, else `bad-op`)
   table                        the generated safe-character ranges, printed back
+  tables2                      the other generated facts (splice, its pieces, quote-forcing class, default delimiters), printed back
   -- acceptance of the text the IMPLEMENTATION produced (round 3; the correspondence proper):
   shv  <hextext> <hex>*        shAccepts(text, args)   -> `T<text> S<shSplit text> ok|REJECTED`
   cmdv <hextext> <hex>*        crtAccepts(text, args)  -> `T<text> D<..> L<..> M<..> ok|REJECTED`
@@ -136,22 +137,25 @@ def handle (line : String) : String :=
     match natList? l with
     | some l =>
       if sp = "0" ∨ sp = "1" then
-        let t := formatIntList l (sp = "1")
-        s!"T{hexOf t} P{showOptNats (parseIntList t)} R{showOptRanges (intRanges t)}"
+        let t := formatIntList l (sp = "1") defaultDelim defaultRangeDelim
+        s!"T{hexOf t} P{showOptNats (parseIntList t defaultDelim defaultRangeDelim)} R{showOptRanges (intRanges t defaultDelim defaultRangeDelim)}"
       else "bad-op"
     | none => "bad-op"
   | ["parse", h] =>
     match hexToString? h with
-    | some s => s!"P{showOptNats (parseIntList (toStr s))} R{showOptRanges (intRanges (toStr s))}"
+    | some s => s!"P{showOptNats (parseIntList (toStr s) defaultDelim defaultRangeDelim)} R{showOptRanges (intRanges (toStr s) defaultDelim defaultRangeDelim)}"
     | none => "bad-op"
   | ["compl", h, a, e] =>
     match hexToString? h, a.toInt?, (if e = "N" then some none else e.toInt?.map some) with
     | some s, some a, some e =>
-      match complementIntList (toStr s) a e with
+      match complementIntList (toStr s) a e defaultDelim defaultRangeDelim with
       | some t => s!"T{hexOf t}"
       | none => "ValueError"
     | _, _, _ => "bad-op"
   | ["table"] => ",".intercalate (Gen.shSafeRanges.map fun p => s!"{p.1}:{p.2}")
+  | ["tables2"] =>
+    let rs := ",".intercalate (Gen.cmdQuoteRanges.map fun p => s!"{p.1}:{p.2}")
+    s!"splice={hexOf sqSplice} pieces={",".intercalate (splicePieces.map fun p => hexOf p.render)} cmdquote={rs} delim={hexOf [defaultDelim]} rdelim={hexOf [defaultRangeDelim]}"
   | _ => "bad-op"
 
 end C14.Driver
